@@ -4,6 +4,7 @@ import corr
 import runfam
 
 PID = "C11"
+NEEDS_CLI = True
 RULE = ("guard lists of length <=3 over the 4-label alphabet {a,b,c,eng} x both polarities (585 lists) x all 16 label sets x "
         "{statement, query, system} x position of the guarded record in a 3-record script (first/middle/last, always followed or "
         "preceded by unguarded statements to expose leaking), engine name 'eng' (or empty); quick: all lists of <=2 guards "
@@ -91,8 +92,72 @@ def generate(rng, tier):
     return cases
 
 
+CLI_LABELS = ["external", "foo", "nolabel"]
+
+
+def cli_runs(tier):
+    """The same rule through the real binary: `--label` flags reach the per-file runners as given (also one that equals the engine's
+    name, also duplicates); the engine's name ("external") counts as a label for statements and queries only.  Statements are observed
+    in the engine's log, system commands through the lines they append to a marker file."""
+    import os
+    import clirun
+    out = []
+    label_sets = [[], ["external"], ["foo"], ["foo", "external"], ["external", "external"], ["external", "foo", "foo"]]
+    if tier != "quick":
+        label_sets += [["nolabel"], ["nolabel", "external"], ["foo", "nolabel"]]
+    guards = [(p, l) for p in ("onlyif", "skipif") for l in CLI_LABELS]
+    for ls in label_sets:
+        for jobs in ([None] if tier == "quick" else [None, 2]):
+            sb = clirun.Sandbox("c11")
+            try:
+                marks = os.path.join(sb.dir, "marks.txt")
+                body, want_sql, want_sys = "", [], []
+                k = 0
+                for (p, l) in guards:
+                    for kind in ("statement", "system", "query"):
+                        k += 1
+                        admit = set(ls) | ({"external"} if kind != "system" else set())
+                        run = (l in admit) if p == "onlyif" else (l not in admit)
+                        if kind == "statement":
+                            body += "%s %s\nstatement ok\nselect G%02d\n\n" % (p, l, k)
+                        elif kind == "query":
+                            body += "%s %s\nquery I\nselect G%02d\n----\n1\n\n" % (p, l, k)
+                        else:
+                            body += "%s %s\nsystem ok\necho G%02d >> %s\n\n" % (p, l, k, marks)
+                        if run:
+                            (want_sys if kind == "system" else want_sql).append("G%02d" % k)
+                        # an unguarded record after every guarded one: guards do not leak
+                        k += 1
+                        body += "statement ok\nselect P%02d\n\n" % k
+                        want_sql.append("P%02d" % k)
+                sb.write_files([["t/guards.slt", body]])
+                args = []
+                for l in ls:
+                    args += ["--label", l]
+                if jobs:
+                    args += ["-j", str(jobs)]
+                r = sb.run(args + ["t/guards.slt"], scenario={"rules": []}, timeout=120)
+                got_sql = [e["sql"].split()[1] for e in r["events"] if e["ev"] == "SQL" and e.get("sql", "").startswith("select ")]
+                got_sys = [l.strip() for l in open(marks)] if os.path.exists(marks) else []
+            finally:
+                sb.close()
+            out.append({"labels": ls, "jobs": jobs, "rc": r["rc"], "got_sql": got_sql, "want_sql": want_sql, "got_sys": got_sys, "want_sys": want_sys,
+                        "stdout": r["stdout"][-400:]})
+    return out
+
+
 def execute(cases, tier):
-    return corr.execute_run_family(__import__("props.C11", fromlist=["x"]), cases, tier)
+    res = corr.execute_run_family(__import__("props.C11", fromlist=["x"]), cases, tier)
+    runs = cli_runs(tier)
+    res["stats"]["evaluations"] += len(runs)
+    res["stats"]["categories"]["cli_label_runs"] = len(runs)
+    for o in runs:
+        if o["got_sql"] != o["want_sql"] or o["got_sys"] != o["want_sys"] or o["rc"] != 0:
+            res["disagreements"].append({"case": {"family": "cli-labels", "labels": o["labels"], "jobs": o["jobs"]}, "impl": o, "model": {"sql": o["want_sql"], "system": o["want_sys"]},
+                                         "spec": "contradicts L1 (C11_guard) through the CLI with --label %r: statements/queries executed %r, expected %r; system commands executed %r, expected %r; exit %r" % (
+                                             o["labels"], o["got_sql"], o["want_sql"], o["got_sys"], o["want_sys"], o["rc"]), "broken": "corr_C11_cli"})
+    res["stats"]["disagreements"] = len(res["disagreements"])
+    return res
 
 
 def project(case, obs):
